@@ -53,6 +53,16 @@ class _JRand:
 jrand = _JRand()
 
 
+class Tracer:
+    """jax.core.Tracer of the API model: values flowing through a jit / vmap / scan trace"""
+
+
+class TracerSym(Sym, Tracer):
+    """a symbolic value that is a Tracer (as under jit); plain Sym values stand for concrete (eager) values"""
+
+    __slots__ = ()
+
+
 def key_const(name):
     return Sym(fresh(name, Key))
 
@@ -150,7 +160,23 @@ def jaxpr_as_fun(closed):
     Assumed.note(API)
 
     def fun(*args):
-        raise EngineLimit("jaxpr_as_fun body evaluated outside an interpreter stub")
+        """plain evaluation (jax.core.eval_jaxpr): every equation is bound as it is — a sampling site runs its
+        keyless implementation"""
+        Assumed.note("jaxpr_as_fun(closed)(*args) evaluates the jaxpr by binding each equation (no interpretation)")
+        jp = closed.jaxpr
+        env = {}
+        rd = lambda v: v.val if isinstance(v, Literal) else env[v.count]
+        for v, c in zip(jp.constvars, closed.consts):
+            env[v.count] = c
+        for v, a in zip(jp.invars, args):
+            env[v.count] = a
+        for eqn in jp.eqns:
+            outs = eqn.primitive.bind(*[rd(v) for v in eqn.invars], **eqn.params)
+            if not eqn.primitive.multiple_results:
+                outs = [outs]
+            for v, o in zip(eqn.outvars, outs):
+                env[v.count] = o
+        return [rd(v) for v in jp.outvars]
 
     fun.__vt_jaxpr__ = closed
     return fun
